@@ -145,8 +145,8 @@ def work(item):
         groups[k].append((x, dev))
     multi = 0
     nacc = 0
-    from ..tables.options import option_sets
-    optsets = option_sets(name, m.validate)[0]
+    from ..tables.options import option_sets, option_combos
+    optsets = option_sets(name, m.validate)[0] + option_combos(name, m.validate)
     for k, members in groups.items():
         if len(members) < 2:
             continue
